@@ -540,6 +540,10 @@ func migrateRuleSet(lang i18n.Language, r RuleSet, validDests map[uuids.UUID]boo
 
 	switch r.Type {
 	case "subflow":
+		if config.Flow == nil {
+			return nil, "", nil, fmt.Errorf("subflow ruleset has no flow in its config")
+		}
+
 		flowRef := assets.NewFlowReference(assets.FlowUUID(config.Flow.UUID), config.Flow.Name)
 
 		newActions = []migratedAction{
@@ -592,6 +596,9 @@ func migrateRuleSet(lang i18n.Language, r RuleSet, validDests map[uuids.UUID]boo
 
 	case "form_field":
 		operand, _ := expressions.MigrateTemplate(r.Operand, nil)
+		if operand == "" {
+			return nil, "", nil, fmt.Errorf("form_field ruleset has no operand")
+		}
 		operand = fmt.Sprintf("@(field(%s, %d, \"%s\"))", operand[1:], config.FieldIndex, config.FieldDelimiter)
 		router = newSwitchRouter(nil, resultName, categories, operand, cases, defaultCategory)
 
@@ -703,7 +710,7 @@ func migrateRuleSet(lang i18n.Language, r RuleSet, validDests map[uuids.UUID]boo
 		for _, countryCfg := range countryConfigs {
 			// check if we already have a configuration for this currency
 			existingAmount, alreadyDefined := currencyAmounts[countryCfg.CurrencyCode]
-			if alreadyDefined && existingAmount != countryCfg.Amount {
+			if alreadyDefined && !existingAmount.Equal(countryCfg.Amount) {
 				return nil, "", nil, fmt.Errorf("unable to migrate airtime ruleset with different amounts in same currency")
 			}
 
